@@ -1239,7 +1239,37 @@ func propC12(r *Run, w *World) {
 	}
 
 	// R3 hex
-	r.Rule("C12.R3", "hex alphabet is 0-9A-F only; every decoder works on the original token (field.orig), so quoted values are never hex-decoded; decodeUppercaseHex rejects odd lengths", 6)
+	r.Rule("C12.R3", "hex alphabet is 0-9A-F only; every decoder works on the original token (field.orig), so quoted values are never hex-decoded; decodeUppercaseHex rejects odd lengths; hexToString/hexToStrings decode the whole token and look for NUL in the decoded bytes, never in the hex text", 6)
+	for _, name := range []string{"hexToString", "hexToStrings"} {
+		fn, err := w.Func("auparse", name)
+		if err != nil {
+			r.Anchor(err)
+			continue
+		}
+		// the parameter is used for nothing but the decoder (and len): any search or cut on the
+		// hex text would see nibble pairs that straddle two bytes
+		okUse := true
+		detail := ""
+		if refs := fn.Params[0].Referrers(); refs != nil {
+			for _, rf := range *refs {
+				switch u := rf.(type) {
+				case *ssa.Call:
+					n := calleeName(u)
+					if n == "auparse.decodeUppercaseHexString" || n == "len" {
+						continue
+					}
+					okUse, detail = false, "the hex text is passed to "+n
+				case *ssa.DebugRef:
+				default:
+					okUse, detail = false, "the hex text is used by "+Term(rf.(ssa.Value))
+				}
+			}
+		}
+		decs := callsNamedIn(fn, "auparse.decodeUppercaseHexString")
+		okDec := len(decs) == 1 && decs[0].Common().Args[0] == ssa.Value(fn.Params[0])
+		r.Check(okUse && okDec, name+" decodes the whole token", fn.Pos(), "decodeUppercaseHexString(h); NUL handling on the decoded bytes",
+			name+" does not hand its whole argument to the decoder and nothing else: "+detail+" (a \"00\" in the hex text need not be a NUL byte: \"200A\" is \" \\n\")")
+	}
 	{
 		if fh, err := w.Func("auparse", "fromHexChar"); err != nil {
 			r.Anchor(err)
